@@ -70,4 +70,5 @@ Next == \/ /\ phase = 0
            /\ phase' = 2 /\ UNCHANGED <<slot, content>>
 
 EmitInv == phase = 2 => EmitCase("ew", CaseLine(env.ak))
+IdemInv == phase = 2 => IdempotentAll(CaseLine(env.ak))
 =============================================================================
